@@ -555,6 +555,25 @@ theorem getValue_lowercased (m : AttributeMatcher) (key : Bytes) :
   unfold AttributeMatcher.getValue firstAttr
   rw [find_lowercased]
 
+theorem lo_idem (b : UInt8) : toAsciiLowercase (toAsciiLowercase b) = toAsciiLowercase b := by
+  have hb := b.toNat_lt
+  rw [← UInt8.toNat_inj, lo_toNat, lo_toNat]
+  by_cases h : 65 ≤ b.toNat ∧ b.toNat ≤ 90
+  · rw [if_pos h, if_neg (by omega)]
+  · rw [if_neg h, if_neg h]
+
+theorem map_lower_makeAsciiLowercase (n : Bytes) : (makeAsciiLowercase n).map lower = n.map lower := by
+  unfold makeAsciiLowercase
+  rw [map_lower_eq, map_lower_eq, List.map_map]
+  congr 1
+  funext b
+  exact lo_idem b
+
+theorem firstAttr_makeAsciiLowercase (attrs : List (Bytes × Bytes)) (n : Bytes) :
+    firstAttr attrs (makeAsciiLowercase n) = firstAttr attrs n := by
+  unfold firstAttr
+  rw [map_lower_makeAsciiLowercase]
+
 theorem idAttr_lower : makeAsciiLowercase idAttr = idAttr := by decide
 theorem classAttr_lower : makeAsciiLowercase classAttr = classAttr := by decide
 
